@@ -49,6 +49,24 @@ type view struct {
 
 	// flags raised while evaluating one query
 	dangling bool // a relation reached a node the index does not know
+
+	// childLimit > 0 selects the alternative reading "only the first
+	// childLimit children (in blobref order) of a directory are looked at"
+	// (names a recorded finding; see judge)
+	childLimit int
+}
+
+// kids is the set of children of a directory.
+func (v *view) kids(dir string) map[string]bool {
+	all := v.children[dir]
+	if v.childLimit <= 0 || len(all) <= v.childLimit {
+		return all
+	}
+	out := map[string]bool{}
+	for _, r := range sortedSet(all)[:v.childLimit] {
+		out[r] = true
+	}
+	return out
 }
 
 // newView builds the instant from the set of refs handed to the index.
@@ -630,7 +648,7 @@ func (v *view) dir(d *QDir, e *entity, m evalMode) bool {
 			return false
 		}
 	}
-	if d.Count != nil && !d.Count.matches(int64(len(v.children[e.ref]))) {
+	if d.Count != nil && !d.Count.matches(int64(len(v.kids(e.ref)))) {
 		return false
 	}
 	if d.Contains != nil && !v.containsChild(d.Contains, e.ref, false, m, map[string]bool{}) {
@@ -651,7 +669,7 @@ func (v *view) containsChild(cc *QC, dir string, recursive bool, m evalMode, vis
 		return false
 	}
 	visited[dir] = true
-	for c := range v.children[dir] {
+	for c := range v.kids(dir) {
 		t := v.ents[c]
 		if t == nil {
 			continue
@@ -661,7 +679,7 @@ func (v *view) containsChild(cc *QC, dir string, recursive bool, m evalMode, vis
 		}
 	}
 	if recursive {
-		for c := range v.children[dir] {
+		for c := range v.kids(dir) {
 			if t := v.ents[c]; t != nil && t.kind == "dir" && v.containsChild(cc, c, true, m, visited) {
 				return true
 			}
